@@ -3,7 +3,9 @@ import os
 
 def run_all(gen):
     repo = os.environ.get("VERIF_REPO", "/repo")
-    from harness.translators import scalar_rules
+    from harness.translators import scalar_rules, exports
     info = scalar_rules.run(repo, gen)
     print("scalar_rules: %d table entries translated, %d outside the grammar" % (
         info["translated"], len(info["untranslated"])))
+    rows = exports.run(repo, gen)
+    print("exports: %d callables classified" % len(rows))
